@@ -32,7 +32,7 @@ class Suite:
 
     def __init__(self, name, engine, cases, monitor=None, nontrivial=None, model_engine=None,
                  spec_engine=None, binary=None, rule="", compare=True, exhaustive=False, timeout=300,
-                 canon=None, candidate_ok=None):
+                 canon=None, candidate_ok=None, shards=1):
         self.name = name
         self.engine = engine
         self.model_engine = model_engine or engine
@@ -45,6 +45,7 @@ class Suite:
         self.compare = compare
         self.exhaustive = exhaustive
         self.timeout = timeout
+        self.shards = shards
         self.canon = canon or (lambda il, ml: (il, ml))
         self.candidate_ok = candidate_ok or (lambda ops: True)
 
@@ -52,6 +53,18 @@ class Suite:
 def run_impl(suite, cases, timeout=None):
     """Run the real code on the cases; an aborting process is an observation, not a crash."""
     timeout = timeout or suite.timeout
+    if suite.shards > 1 and len(cases) >= 2 * suite.shards:
+        import concurrent.futures
+        parts = [cases[i::suite.shards] for i in range(suite.shards)]
+        res = {}
+        with concurrent.futures.ThreadPoolExecutor(max_workers=suite.shards) as ex:
+            for r in ex.map(lambda p: run_impl_seq(suite, p, timeout), parts):
+                res.update(r)
+        return res
+    return run_impl_seq(suite, cases, timeout)
+
+
+def run_impl_seq(suite, cases, timeout):
     res = {}
     remaining = list(cases)
     guard = 0
